@@ -13,6 +13,7 @@ import Lattigo.Model.KeySwitch
         (for applyup/applydown the galEl slot carries gap = N/n)
   keymeta type form w lq lp deg nI nJ galEl nthRoot seed    → the record of the derived key (= the original's)
   gplazyw p= mrc= fam= r0= r1= c=                            → raw words of one limb of the lazy accumulators
+  expandidx logN logGap                                     → keys of the map RingPackingEvaluator.Expand returns
   A list of polynomials is `rows;rows;…` joined by `/`.
 -/
 namespace Driver.C04
@@ -185,6 +186,8 @@ def handle (toks : List String) : String :=
     | "evk" :: rest => handleEvk rest
     | "keymeta" :: rest => handleKeyMeta rest
     | "gplazyw" :: rest => handleGpLazyW rest
+    | ["expandidx", logN, logGap] => do
+        some (showVec (expandKeys (← logN.toNat?) (← logGap.toNat?)))
     | op :: rest => handleKs op rest
     | _ => none
   r.getD badOp
